@@ -393,6 +393,38 @@ def replay_index_defect(case):
     return obs
 
 
+def packet_lost_at_link_stop(case):
+    """Candidate defect C08-F2 (switch.go ForwardPackets/routeAsync): the incoming link is stopped while
+    it forwards a batch; the circuits are already committed (half-open) but routeAsync gives up on
+    linkQuit, so the add packets never reach the switch; after the link restart the replayed adds
+    are DROPPED as duplicates (half-open, not loaded from disk) and the HTLCs stay pending until the
+    whole switch restarts.  Returns the circuits for which exactly this was observed."""
+    ev = case["events"]
+    out = []
+    for i, e in enumerate(ev):
+        if e[0] == "c" and e[1] == "commit":
+            for k in e[2]:
+                k = tuple(k)
+                stop = next((j for j in range(i + 1, min(i + 40, len(ev)))
+                             if ev[j][0] == "x" and ev[j][1] == "linkrestart" and ev[j][2] == k[0]), None)
+                if stop is None:
+                    continue
+                answered = False
+                dropped = False
+                for x in ev[i + 1:]:
+                    if x[0] == "n" and x[1] in ("fwd", "linkfail", "fwdfail", "settle") and tuple(x[3:5]) == k:
+                        answered = True
+                    if x[0] == "c" and x[1] == "fail" and tuple(x[2]) == k:
+                        answered = True
+                    if x[0] == "x" and x[1] == "restart":
+                        answered = True        # a whole restart repairs it
+                    if x[0] == "c" and x[1] == "commit" and list(k) in x[3]:
+                        dropped = True
+                if dropped and not answered:
+                    out.append(list(k))
+    return out
+
+
 def funds_missing(case):
     """Non-quiescent end state in which value has demonstrably vanished."""
     end = {e["name"]: e for e in case["end"]}
@@ -415,13 +447,17 @@ def slim(case, around=None):
 def run(ctx):
     # VERIF_C08_F1=known treats the replay-index defect as already registered in known_findings.json
     # (for campaigns run before the lead registers it): its reports become notes.
-    if os.environ.get("VERIF_C08_F1") == "known":
+    assumed = [(n, pat) for n, pat in (("C08-F1", "fwdpkg-replay-index"),
+                                       ("C08-F2", "fwd-packet-lost-at-link-stop"))
+               if os.environ.get("VERIF_" + n.replace("-", "_")) == "known"]
+    if assumed:
         real_violation = ctx.violation
 
         def violation(kind, name, detail, signature=None, failing_input=True):
-            if signature and "fwdpkg-replay-index" in signature:
-                ctx.note("C08-F1 (assumed known): %s" % signature)
-                return
+            for n, pat in assumed:
+                if signature and pat in signature:
+                    ctx.note("%s (assumed known): %s" % (n, signature))
+                    return
             real_violation(kind, name, detail, signature=signature, failing_input=failing_input)
         ctx.violation = violation
     pr = ctx.proof_stage(MODULE, THEOREMS, TARGETS, extra_trusted=[
@@ -476,6 +512,13 @@ def run(ctx):
                                                           "replaying its forwarding packages: %s" % linkfail[:3]],
                                "replay_index_defect": defect[c["case"]][:6]},
                               signature=tag + "link dead after replay")
+            elif packet_lost_at_link_stop(c):
+                ctx.violation("impl_violates_predicate", "C08_quiescent_balance",
+                              {"case": slim(c), "fails": [
+                                  "htlcs left dangling: the add packets of circuits %s were abandoned when their "
+                                  "incoming link stopped (committed half-open, never routed), the replay after the "
+                                  "link restart was dropped as a duplicate" % packet_lost_at_link_stop(c)]},
+                              signature=tag + "fwd-packet-lost-at-link-stop")
             else:
                 ctx.violation("harness_failed", "TestVerifThreeHop: no quiescence (%s)" % c["why"],
                               {"case": slim(c), "link_failures": linkfail}, signature=tag + "harness",
